@@ -365,3 +365,84 @@ def parsed_shard(a):
         if pr:
             bad.append((sql, type(node).__name__, pr))
     return dialect, cnt, len(trees), bad
+
+
+# ---- real plan steps: equality laws over the steps the planner really emits, and over their "class-cast twins" ------------------
+def step_pool():
+    """every distinct step object (sub-steps of containers included) in the plans of the planner skeletons of C09/C10"""
+    from harness import planlib as PL, c0910lib
+    from mindsdb_sql.planner import steps as S
+    pool, seen = [], set()
+
+    def add(st):
+        if not isinstance(st, S.PlanStep):
+            return
+        key = (type(st).__name__, repr(st))
+        if key not in seen:
+            seen.add(key)
+            pool.append(st)
+        for v in vars(st).values():
+            if isinstance(v, S.PlanStep):
+                add(v)
+            elif isinstance(v, (list, tuple)):
+                for x in v:
+                    add(x)
+    for name in c0910lib.SK:
+        try:
+            plan = PL.plan_sql(c0910lib.text(name, (True,), (), ()), **PL.catalog(api='apidb' in c0910lib.SK[name][0], ts='tspred' in c0910lib.SK[name][0]))
+        except Exception:  # noqa
+            continue
+        for st in plan.steps:
+            add(st)
+    return pool
+
+
+def step_cast_laws():
+    """-> (comparisons, problems).  For every real step s and every step class D that is a sub- or superclass of type(s): the twin of s
+    is an instance of D carrying s's values in all attributes the two classes share.  Laws: == is symmetric; objects that compare equal
+    print alike (also as one-step plans).  Plus the same laws on all pairs of real steps."""
+    import copy as _cp
+    from mindsdb_sql.planner import steps as S
+    from mindsdb_sql.planner.query_plan import QueryPlan
+    pool = step_pool()
+    classes = [c for c in vars(S).values() if isinstance(c, type) and issubclass(c, S.PlanStep) and c is not S.PlanStep]
+    donors = {}
+    for st in pool:
+        donors.setdefault(type(st), st)
+    problems, n = [], 0
+
+    def laws(a, b, what):
+        nonlocal n
+        n += 1
+        try:
+            e1, e2 = (a == b), (b == a)
+        except Exception as e:  # noqa
+            problems.append('%s: == raises %s' % (what, type(e).__name__))
+            return
+        if bool(e1) != bool(e2):
+            problems.append('%s: a == b is %r but b == a is %r (%r vs %r)' % (what, e1, e2, a, b))
+        elif e1 and repr(a) != repr(b):
+            problems.append('%s: equal steps print differently: %r vs %r' % (what, a, b))
+        try:
+            p1, p2 = QueryPlan(steps=[a]), QueryPlan(steps=[b])
+            q1, q2 = (p1 == p2), (p2 == p1)
+            if bool(q1) != bool(q2):
+                problems.append('%s: plan equality not symmetric' % what)
+            elif q1 and repr(p1.steps) != repr(p2.steps):
+                problems.append('%s: equal plans print differently' % what)
+        except Exception as e:  # noqa
+            problems.append('%s: plan == raises %s' % (what, type(e).__name__))
+    for st in pool:
+        for D in classes:
+            if D is type(st) or not (issubclass(D, type(st)) or issubclass(type(st), D)) or D not in donors:
+                continue
+            twin = D.__new__(D)
+            twin.__dict__ = _cp.deepcopy(vars(donors[D]))
+            for k, v in vars(st).items():
+                if k in twin.__dict__:
+                    twin.__dict__[k] = _cp.deepcopy(v)
+            laws(st, twin, '%s and its %s twin' % (type(st).__name__, D.__name__))
+    for i, a in enumerate(pool):
+        for b in pool[i:]:
+            laws(a, b, 'steps %s / %s' % (type(a).__name__, type(b).__name__))
+    return n, problems, len(pool), sorted(set(type(s).__name__ for s in pool))
